@@ -66,6 +66,17 @@ def check(run):
         s1, s2 = near_pair(rng, la, lb, sep, far)
         one_case(run, [s1, s2])
         run.count("nearly coincident centres %g%s" % (sep, " far from origin" if far else ""))
+    # SP-type bases (shells of different l sharing one exponent-array object, one and two centres) and structured transformations
+    from checks.common import sp_family, structured_transforms
+    for k, ls in enumerate([(0, 1), (0, 2), (1, 2), (0, 1, 2)]):
+        specs = sp_family(rng, ls, two_centres=(k % 2 == 0) or run.tier != "quick")
+        one_case(run, specs)
+        one_case(run, list(reversed(specs)))
+        run.count("SP-type shared exponent arrays")
+    specs = random_basis(rng, 2, 2, lmax=2)
+    for lab, T in structured_transforms(rng, sum(s_.size for s_ in specs)):
+        one_case(run, specs, T)
+        run.count("transform " + lab)
     for l in range(6):
         hi = core.exp_cap(l)
         s1 = ShellSpec(l, [0.0, 0.0, 0.0], [hi, 0.02], [[1.0], [0.5]], sph=(l % 2 == 0))
